@@ -1143,7 +1143,13 @@ def r21(ctx: Ctx):
       if not isinstance(r_, ast.Raise):
         continue
       n += 1
-      wraps = (isinstance(r_.exc, ast.Call) and unparse(r_.exc.func) in ('ValueError', 'TypeError') and r_.cause is not None)
+      exc = r_.exc
+      if isinstance(exc, ast.Name):
+        # `error = ValueError(...); raise error from e`
+        defs = [x.value for x in ast.walk(h) if isinstance(x, ast.Assign) and any(isinstance(t, ast.Name) and t.id == exc.id for t in x.targets)]
+        if len(defs) == 1:
+          exc = defs[0]
+      wraps = (isinstance(exc, ast.Call) and unparse(exc.func) in ('ValueError', 'TypeError') and r_.cause is not None)
       what = 'TreeFn._maybe_call_fn: a failure of the function leaves as a skippable error chained to its cause'
       if wraps:
         ctx.ok(rule, fi, what, r_)
@@ -1199,6 +1205,10 @@ from mlmverif.selfcheck import B, OK  # noqa: E402
 _F = 'chainables/tree_fns.py'
 _U = 'utils/iter_utils.py'
 VARIANTS = [
+    OK('call-wrapper-names-its-error-first', 'chainables/tree_fns.py',
+       "      raise ValueError(f'Failed to call {self.fn} with inputs {shape=}') from e", "      error = ValueError(f'Failed to call {self.fn} with inputs {shape=}')\n      raise error from e"),
+    OK('sink-forwards-through-a-named-generator', 'chainables/tree_fns.py',
+       "      yield from (elem for _, elem in it_)\n    finally:\n      self._actual_fn.close()", "      forwarded = (elem for _, elem in it_)\n      yield from forwarded\n    finally:\n      self._actual_fn.close()"),
     B('call-wrapper-reraises-raw-when-skipping', 'chainables/tree_fns.py',
       "    except Exception as e:\n      keys = [tree.Key().at(i) for i in range(len(fn_inputs))]", "    except Exception as e:\n      if self.ignore_error:\n        raise\n      keys = [tree.Key().at(i) for i in range(len(fn_inputs))]", 'R-C12-21'),
     B('sink-loops-over-its-input', 'chainables/tree_fns.py',
